@@ -234,12 +234,12 @@ theorem output_eq (hne : jobCmds inp script ≠ []) (hc : Clean (jobCmds inp scr
         stderrs := (captures (finalFS baseEnv inp script) (namesOf (ranCmds baseEnv inp script))).foldl
           (fun d c => dset d c.1 (c.2.2.getD [])) []
         exitcode := exitcodeOf .repaired (failedCode (ranCmds baseEnv inp script))
-          ((inp.returnFiles.getD []).all fun f => dhas (finalFS baseEnv inp script) f)
-        files := collect (finalFS baseEnv inp script) (inp.returnFiles.getD [])
+          ((requested inp).all fun f => dhas (finalFS baseEnv inp script) f)
+        files := collect (finalFS baseEnv inp script) (requested inp)
         inputHash := hash inp } ∧
     (runJob .repaired hash baseEnv scratch td inp script).exit =
       if (failedCode (ranCmds baseEnv inp script)).isNone &&
-         ((inp.returnFiles.getD []).all fun f => dhas (finalFS baseEnv inp script) f) then 0 else 1 := by
+         ((requested inp).all fun f => dhas (finalFS baseEnv inp script) f) then 0 else 1 := by
   unfold runJob
   simp only
   have h1 : (ranCmds baseEnv inp script).isEmpty = false := by
@@ -247,7 +247,10 @@ theorem output_eq (hne : jobCmds inp script ≠ []) (hc : Clean (jobCmds inp scr
     simpa [ranCmds, List.isEmpty_iff] using this
   rw [h1, captures_present baseEnv inp script hc]
   simp only [Bool.or_self, Bool.false_eq_true, if_false]
-  cases inp.returnFiles <;> exact ⟨rfl, rfl⟩
+  simp only [requested]
+  split
+  · rename_i h2; cases h2
+  · exact ⟨rfl, rfl⟩
 
 /-- "captures each named command's stdout/stderr": the JobOutput maps the name of every started named command
 to exactly what that command printed, and has no other keys. -/
@@ -299,8 +302,8 @@ with exactly the bytes it then has; nothing that was not requested is returned; 
 no command touches comes back with exactly the bytes of the input. -/
 theorem files_byte_for_byte (hne : jobCmds inp script ≠ []) (hc : Clean (jobCmds inp script)) :
     ∃ o, (runJob .repaired hash baseEnv scratch td inp script).output = some o ∧
-      (∀ f, dget o.files f = if f ∈ inp.returnFiles.getD [] then dget (finalFS baseEnv inp script) f else none) ∧
-      (∀ f, f ∈ inp.returnFiles.getD [] → f ∉ capFiles (jobCmds inp script) →
+      (∀ f, dget o.files f = if f ∈ requested inp then dget (finalFS baseEnv inp script) f else none) ∧
+      (∀ f, f ∈ requested inp → f ∉ capFiles (jobCmds inp script) →
         (∀ c ∈ jobCmds inp script, ∀ e ∈ c.2.effects, f ≠ target e) →
         dget o.files f = dget (initFS inp) f) := by
   obtain ⟨ho, _⟩ := output_eq hash baseEnv scratch td inp script hne hc
@@ -309,26 +312,38 @@ theorem files_byte_for_byte (hne : jobCmds inp script ≠ []) (hc : Clean (jobCm
   simp only
   rw [dget_collect, if_pos hf, finalFS, exec_frame _ _ _ f hcap heff]
 
+/-- requested files may live in sub-directories: two requested paths with the same base name in different directories
+are two entries of the JobOutput, each under its own (normalised) path with its own bytes -/
+theorem same_basename_different_directories (hne : jobCmds inp script ≠ []) (hc : Clean (jobCmds inp script))
+    (f g : String) (hf : f ∈ requested inp) (hg : g ∈ requested inp) :
+    ∃ o, (runJob .repaired hash baseEnv scratch td inp script).output = some o ∧
+      dget o.files f = dget (finalFS baseEnv inp script) f ∧ dget o.files g = dget (finalFS baseEnv inp script) g := by
+  obtain ⟨o, ho, hfiles, _⟩ := files_byte_for_byte hash baseEnv scratch td inp script hne hc
+  exact ⟨o, ho, by rw [hfiles, if_pos hf], by rw [hfiles, if_pos hg]⟩
+
+example : normPath "./r.dat" = "r.dat" ∧ normPath "a//b/./r.bin" = "a/b/r.bin" ∧ normPath "a/r.bin" ≠ normPath "b/r.bin" ∧
+    normPath "sub/" = "sub" ∧ normPath "../x" = "../x" := by decide
+
 /-- "exits 0 iff every command succeeded and every requested file exists" — and the JobOutput says the same:
 its exit code is 0 exactly when the process exits 0; after a failing command it is that command's code. -/
 theorem exit_zero_iff (hne : jobCmds inp script ≠ []) (hc : Clean (jobCmds inp script)) :
     ((runJob .repaired hash baseEnv scratch td inp script).exit = 0 ↔
       (∀ c ∈ jobCmds inp script, c.2.code = 0) ∧
-      (∀ f ∈ inp.returnFiles.getD [], (dget (finalFS baseEnv inp script) f).isSome)) ∧
+      (∀ f ∈ requested inp, (dget (finalFS baseEnv inp script) f).isSome)) ∧
     ∃ o, (runJob .repaired hash baseEnv scratch td inp script).output = some o ∧
       (o.exitcode = 0 ↔ (runJob .repaired hash baseEnv scratch td inp script).exit = 0) ∧
       (∀ c, failedCode (runJob .repaired hash baseEnv scratch td inp script).ran = some c → o.exitcode = c) := by
   obtain ⟨ho, he⟩ := output_eq hash baseEnv scratch td inp script hne hc
   have hfail := failedCode_none_iff (jobEnv baseEnv inp) (initFS inp) (jobCmds inp script)
-  have hall : ((inp.returnFiles.getD []).all fun f => dhas (finalFS baseEnv inp script) f) = true ↔
-      ∀ f ∈ inp.returnFiles.getD [], (dget (finalFS baseEnv inp script) f).isSome := by
+  have hall : ((requested inp).all fun f => dhas (finalFS baseEnv inp script) f) = true ↔
+      ∀ f ∈ requested inp, (dget (finalFS baseEnv inp script) f).isSome := by
     simp [List.all_eq_true, dhas_eq_isSome]
   constructor
   · rw [he]
     constructor
     · intro h
       by_cases hb : ((failedCode (ranCmds baseEnv inp script)).isNone &&
-          (inp.returnFiles.getD []).all fun f => dhas (finalFS baseEnv inp script) f) = true
+          (requested inp).all fun f => dhas (finalFS baseEnv inp script) f) = true
       · rw [Bool.and_eq_true] at hb
         exact ⟨hfail.mp (by simpa [ranCmds] using hb.1), hall.mp hb.2⟩
       · rw [if_neg hb] at h; cases h
@@ -347,7 +362,7 @@ theorem exit_zero_iff (hne : jobCmds inp script ≠ []) (hc : Clean (jobCmds inp
         · intro h; cases h
       | none =>
         simp only [exitcodeOf, Option.isNone_none, Bool.true_and]
-        cases (inp.returnFiles.getD []).all fun f => dhas (finalFS baseEnv inp script) f <;> simp
+        cases (requested inp).all fun f => dhas (finalFS baseEnv inp script) f <;> simp
     · intro c hcf
       rw [runJob_ran] at hcf
       simp only [hcf, exitcodeOf]
@@ -397,6 +412,28 @@ theorem no_residue (v : Variant) :
   · split <;> exact this
 
 end run
+
+/-! ## program lookup -/
+
+theorem dget_dmerge_right (a b : Env) (k v : String) (hnd : (b.map (·.1)).Nodup) (h : dget b k = some v) :
+    dget (dmerge a b) k = some v := by
+  unfold dmerge
+  apply dget_foldl_dset_mem b a k v hnd
+  simp only [dget, Option.map_eq_some_iff] at h
+  obtain ⟨e, he, rfl⟩ := h
+  have hk : e.1 = k := by simpa using List.find?_some he
+  have := List.mem_of_find?_eq_some he
+  rw [← hk]; exact this
+
+/-- "reflects … that driver instance's environment": when the job's `envars` set `PATH`, the program a command starts is
+the one THAT path selects — the same whatever the `PATH` (or anything else) of the runner's own environment is. -/
+theorem program_selected_by_job_environment (base base' : Env) (inp : JobInput) (p : String)
+    (hnd : (inp.envars.map (·.1)).Nodup) (hp : dget inp.envars "PATH" = some p) (has : String → Bool) (prog : String) :
+    resolveProgram (jobEnv base inp) has prog = resolveProgram (jobEnv base' inp) has prog ∧
+    pathDirs (jobEnv base inp) = p.splitOn ":" := by
+  have h1 := dget_dmerge_right base inp.envars "PATH" p hnd hp
+  have h2 := dget_dmerge_right base' inp.envars "PATH" p hnd hp
+  simp only [resolveProgram, pathDirs, jobEnv, h1, h2, and_self]
 
 /-! ## path arguments -/
 
